@@ -528,3 +528,196 @@ Proof.
   - injection Hstep as <- <-. rewrite app_nil_r. exact G.
   - injection Hstep as <- <-. rewrite app_nil_r. exact G.
 Qed.
+
+(** * Safety over every history (arbitrary scheduler, foreign records included) *)
+
+Lemma recs_ok_True c : recs_ok (fun _ => True) c.
+Proof. intros i r _ _. exact I. Qed.
+
+Lemma prun_ginv_True n maxinc ls : forall s evs0,
+  (1 <= n)%nat -> ginv (fun _ => True) n s evs0 ->
+  ginv (fun _ => True) n (fst (prun n maxinc s ls)) (evs0 ++ snd (prun n maxinc s ls)).
+Proof.
+  induction ls as [|lb ls IH]; intros s evs0 Hn G; cbn [prun fst snd]; [rewrite app_nil_r; exact G|].
+  destruct (pstep n maxinc s lb) as [s1 ev1] eqn:Es.
+  specialize (IH s1 (evs0 ++ ev1) Hn).
+  destruct (prun n maxinc s1 ls) as [s2 evs2]. cbn [fst snd] in *.
+  rewrite app_assoc. apply IH.
+  eapply pstep_ginv; [exact Hn|apply recs_ok_True| |exact Es|exact G]. intros; exact I.
+Qed.
+
+(** * Runs of a set of live honest members *)
+
+Definition honest (live : nat -> bool) (lb : label) : Prop :=
+  match lb with
+  | LGarbage _ _ => False
+  | LTick k _ _ => live k = true
+  | _ => True
+  end.
+
+Definition Plive (live : nat -> bool) (i : nat) : Prop := live i = true /\ (1 <= i)%nat.
+
+Definition sig_honest (live : nat -> bool) (r : sigrec) : Prop := Plive live (sv_by (sr_sig r)).
+
+Definition chain_honest (live : nat -> bool) (c : chain) : Prop :=
+  (forall i recs r, c_sigdom c !! i = Some recs -> In r recs -> sig_honest live r) /\
+  (forall e, In e (c_pool c) -> sent_ok (Plive live) (snd e)).
+
+Lemma chain_honest_recs_ok live c : chain_honest live c -> recs_ok (Plive live) c.
+Proof.
+  intros [Ha _] i r Hl Hby. unfold lookup_sig in Hl.
+  destruct (c_sigdom c !! i) as [[|r0 recs]|] eqn:E; try discriminate. injection Hl as ->.
+  specialize (Ha i (r :: recs) r E ltac:(left; reflexivity)). unfold sig_honest in Ha. rewrite Hby in Ha. exact Ha.
+Qed.
+
+Lemma chain_honest_tick live n c c' l' ev :
+  tick_ok (Plive live) n c c' l' ev -> chain_honest live c -> chain_honest live c'.
+Proof.
+  intros [_ _ (Ht & Hs & Hh) Hp _ _ Hk] [Ha Hb]. split.
+  - rewrite Hs. exact Ha.
+  - intros e He. destruct (Hp e He) as [H|H]; [apply Hb; exact H|]. exact (Hk _ _ H).
+Qed.
+
+Lemma In_tail {A} (x : A) l : In x (tail l) -> In x l.
+Proof. destruct l; cbn; auto. Qed.
+
+Lemma apply_write_honest live c w :
+  sent_ok (Plive live) w ->
+  (forall i recs r, c_sigdom c !! i = Some recs -> In r recs -> sig_honest live r) ->
+  (forall i recs r, c_sigdom (apply_write c w) !! i = Some recs -> In r recs -> sig_honest live r).
+Proof.
+  intros Hw Ha. unfold apply_write. destruct (write_ok c w); cbn [negb]; [|exact Ha].
+  destruct w as [| | |j|j r0|j r0|]; try exact Ha.
+  - destruct (c_txdom c); exact Ha.
+  - destruct (c_sigdom c !! j) eqn:E; [exact Ha|]. cbn [c_sigdom]. intros i recs r Hl Hin.
+    destruct (decide (i = j)) as [->|Hne].
+    + rewrite lookup_insert in Hl. injection Hl as <-. destruct Hin.
+    + rewrite lookup_insert_ne in Hl by congruence. exact (Ha i recs r Hl Hin).
+  - cbn [c_sigdom]. intros i recs r Hl Hin.
+    destruct (decide (i = j)) as [->|Hne].
+    + rewrite lookup_insert in Hl. injection Hl as <-. apply in_app_or in Hin as [Hin|[<-|[]]]; [|exact Hw].
+      destruct (c_sigdom c !! j) as [recs0|] eqn:E; [|destruct Hin]. exact (Ha j recs0 r E Hin).
+    + rewrite lookup_insert_ne in Hl by congruence. exact (Ha i recs r Hl Hin).
+  - cbn [c_sigdom]. intros i recs r Hl Hin.
+    destruct (decide (i = j)) as [->|Hne].
+    + rewrite lookup_insert in Hl. injection Hl as <-. destruct Hin as [<-|Hin]; [exact Hw|].
+      apply In_tail in Hin.
+      destruct (c_sigdom c !! j) as [recs0|] eqn:E; [|destruct Hin]. exact (Ha j recs0 r E Hin).
+    + rewrite lookup_insert_ne in Hl by congruence. exact (Ha i recs r Hl Hin).
+Qed.
+
+Lemma land_honest live id s : chain_honest live (p_chain s) -> chain_honest live (p_chain (land id s)).
+Proof.
+  intros [Ha Hb]. unfold land.
+  destruct (list_find _ (c_pool (p_chain s))) as [[pos [id' w]]|] eqn:Ef; [|split; assumption].
+  assert (Hin : In (id', w) (c_pool (p_chain s))).
+  { apply list_find_Some in Ef as (H & _ & _).
+    apply elem_of_list_In. eapply elem_of_list_lookup_2. exact H. }
+  unfold clear_flags. cbn [p_chain]. split.
+  - cbn [c_sigdom]. apply apply_write_honest; [exact (Hb _ Hin)|exact Ha].
+  - cbn [c_pool]. intros e He. apply In_delete in He. rewrite apply_write_pool in He. exact (Hb e He).
+Qed.
+
+Lemma land_all_honest live ids : forall s,
+  chain_honest live (p_chain s) ->
+  chain_honest live (p_chain (fold_left (fun s (e : nat * write) => land (fst e) s) ids s)).
+Proof.
+  induction ids as [|e ids IH]; intros s H; [exact H|]. cbn [fold_left]. apply IH. apply land_honest. exact H.
+Qed.
+
+Lemma pstep_honest live n maxinc s lb s' ev evs :
+  (1 <= n)%nat -> honest live lb ->
+  pstep n maxinc s lb = (s', ev) ->
+  ginv (Plive live) n s evs -> chain_honest live (p_chain s) ->
+  ginv (Plive live) n s' (evs ++ ev) /\ chain_honest live (p_chain s').
+Proof.
+  intros Hn Hh Hstep G Hc. split.
+  - eapply pstep_ginv; [exact Hn|apply chain_honest_recs_ok; exact Hc| |exact Hstep|exact G].
+    intros k nonce order -> Hk. cbn in Hh. split; [exact Hh|lia].
+  - destruct s as [c l sg so]. destruct lb as [k nonce order|k|id| | |i recs]; cbn [pstep p_chain p_leader p_signers p_solo] in Hstep.
+    + cbn in Hh. destruct (c_designated c || negb (k <? n)%nat); [injection Hstep as <- <-; exact Hc|].
+      destruct (n =? 1)%nat eqn:E1.
+      * apply Nat.eqb_eq in E1. subst n.
+        destruct (solo_tick nonce c so) as [[c1 p1] ev1] eqn:Et. injection Hstep as <- <-. cbn [p_chain].
+        eapply chain_honest_tick; [|exact Hc]. eapply solo_tick_ok; [exact (proj1 G)|exact Et].
+      * destruct (k =? 0)%nat eqn:E0.
+        -- destruct (leader_tick n maxinc nonce order c l) as [[c1 l1] ev1] eqn:Et. injection Hstep as <- <-. cbn [p_chain].
+           eapply chain_honest_tick; [|exact Hc].
+           eapply leader_tick_ok; [exact Hn|apply chain_honest_recs_ok; exact Hc|exact (proj1 G)|exact Et].
+        -- destruct (signer_tick k c _) as [[c1 sg1] ev1] eqn:Et. injection Hstep as <- <-. cbn [p_chain].
+           eapply chain_honest_tick; [|exact Hc]. apply Nat.eqb_neq in E0.
+           eapply signer_tick_ok; [|exact (proj1 G)|exact Et]. split; [exact Hh|lia].
+    + destruct (k =? 0)%nat; injection Hstep as <- <-; exact Hc.
+    + injection Hstep as <- <-. apply land_honest. exact Hc.
+    + injection Hstep as <- <-. apply land_all_honest. exact Hc.
+    + injection Hstep as <- <-. exact Hc.
+    + destruct Hh.
+Qed.
+
+Lemma prun_honest live n maxinc ls : forall s evs0,
+  (1 <= n)%nat -> Forall (honest live) ls ->
+  ginv (Plive live) n s evs0 -> chain_honest live (p_chain s) ->
+  ginv (Plive live) n (fst (prun n maxinc s ls)) (evs0 ++ snd (prun n maxinc s ls)).
+Proof.
+  induction ls as [|lb ls IH]; intros s evs0 Hn Hh G Hc; cbn [prun fst snd]; [rewrite app_nil_r; exact G|].
+  apply Forall_cons_1 in Hh as [Hh Hhs].
+  destruct (pstep n maxinc s lb) as [s1 ev1] eqn:Es.
+  destruct (pstep_honest live n maxinc s lb s1 ev1 evs0 Hn Hh Es G Hc) as [G1 Hc1].
+  specialize (IH s1 (evs0 ++ ev1) Hn Hhs G1 Hc1).
+  destruct (prun n maxinc s1 ls) as [s2 evs2]. cbn [fst snd] in *.
+  rewrite app_assoc. exact IH.
+Qed.
+
+Lemma chain_honest_init live h0 : chain_honest live (p_chain (pinit h0)).
+Proof.
+  split.
+  - intros i recs r H. cbn in H. rewrite lookup_empty in H. discriminate.
+  - intros e [].
+Qed.
+
+(** * Pigeonhole: how many signatures the leader can ever hold *)
+
+(** Live members whose signature domain the leader's loop reads and checks
+    with their own key: indices 1 .. n-2 (notary.go:390-391,426 against 629). *)
+Definition readable (n : nat) (live : nat -> bool) : nat :=
+  length (List.filter live (seq 1 (n - 2))).
+
+Lemma readable_bound n live (sc : list sigval) :
+  NoDup (map sv_by sc) ->
+  Forall (fun s => (sv_by s + 1 < n)%nat /\ Plive live (sv_by s)) sc ->
+  (length sc <= readable n live)%nat.
+Proof.
+  intros Hnd Hall. rewrite <- (map_length sv_by). unfold readable.
+  apply NoDup_incl_length; [apply NoDup_ListNoDup; exact Hnd|].
+  intros x Hx. apply in_map_iff in Hx as (s & <- & Hs).
+  rewrite List.Forall_forall in Hall. destruct (Hall s Hs) as (Hlt & Hlive & Hge).
+  apply filter_In. split; [|exact Hlive]. apply in_seq. lia.
+Qed.
+
+(** If fewer than [maj_m n - 1] live members are readable, no history of
+    the live members (any interleaving, restarts, delays) ever assembles a
+    witness, sends a designation, or gets the role designated. *)
+Lemma blocked n maxinc h0 live ls :
+  (2 <= n)%nat -> (readable n live < maj_m n - 1)%nat ->
+  Forall (honest live) ls ->
+  let r := prun n maxinc (pinit h0) ls in
+  (forall d sc, ~ In (EAssembled d sc) (snd r)) /\
+  (forall id d sc, ~ In (ESent id (WDesignate d sc)) (snd r)) /\
+  c_designated (p_chain (fst r)) = false.
+Proof.
+  intros Hn Hr Hh r.
+  pose proof (prun_honest live n maxinc ls (pinit h0) [] ltac:(lia) Hh (ginv_init _ n h0) (chain_honest_init live h0)) as G.
+  fold r in G. cbn [app] in G. destruct G as (_ & _ & G3 & G4 & G5).
+  assert (H2 : forall id d sc, ~ In (ESent id (WDesignate d sc)) (snd r)).
+  { intros id d sc Hin. destruct (G5 id d sc Hin) as (_ & Hlen & [Hnil|(Hl & Hnd & Hall)]).
+    - destruct sc as [|s0 sc]; cbn [tail length] in *; [lia|]. subst sc. cbn [length] in Hlen. lia.
+    - pose proof (readable_bound n live (tail sc) Hnd Hall). lia. }
+  split; [|split; [exact H2|]].
+  - intros d sc Hin. destruct (G4 d sc Hin) as ((Hlen & _ & Hnd & Hb) & HP).
+    assert (Hall : Forall (fun s => (sv_by s + 1 < n)%nat /\ Plive live (sv_by s)) (tail sc)).
+    { rewrite List.Forall_forall in *. intros s Hs. split; [apply Hb; exact Hs|apply HP; exact Hs]. }
+    pose proof (readable_bound n live (tail sc) Hnd Hall) as Hle.
+    destruct sc as [|s0 sc]; cbn [tail length] in *; lia.
+  - destruct (c_designated (p_chain (fst r))) eqn:E; [|reflexivity].
+    destruct (G3 eq_refl) as (id & d & sc & Hin). destruct (H2 id d sc Hin).
+Qed.
